@@ -179,7 +179,7 @@ pub fn gen(a: &Args) -> String {
     let mut r = Rng::new(a.seed);
     let mut out = Out::default();
     out.buf.push_str(&format!("#rule {}\n", RULE));
-    let n_cases = if a.thorough { 40000 } else { 4000 };
+    let n_cases = if a.thorough { 100000 } else { 12000 };
     for id in 0..n_cases {
         let mut cr = r.fork();
         let len = if a.thorough { cr.range(5, 120) } else { cr.range(5, 50) } as usize;
